@@ -50,7 +50,7 @@ def mkSub (ds : List Dir) (body : List CEv) : List CEv :=
   if ds.isEmpty then body else [.sub ds body]
 
 mutual
-  def compileNode : Node → List CEv
+  def compileNode : TNode → List CEv
     | .text s => [.text s]
     | .expr x => [.xexpr x]
     | .elem tag attrs dirs kids =>
@@ -60,7 +60,7 @@ mutual
     | .delem d kids =>
         let r := attach [d] (compileNodes kids)
         mkSub r.1 r.2
-  def compileNodes : List Node → List CEv
+  def compileNodes : List TNode → List CEv
     | [] => []
     | n :: ns => compileNode n ++ compileNodes ns
 end
@@ -107,12 +107,6 @@ def St.setTop (st : St) (x : Name) (v : Val) : St :=
 
 abbrev IRes := Except Err (List Event × St)
 
-def stripCond (look : Name → Val) : Option Expr → Except Err Bool
-  | none => .ok true
-  | some e => do
-      let v ← eval look e
-      pure v.truthy
-
 /-- `AttrsDirective._generate`: the first event with the evaluated attributes
     merged in when it is a start tag; an exhausted stream ends the generator
     with StopIteration (→ RuntimeError) -/
@@ -139,99 +133,97 @@ def stripBody (look : Name → Val) (c : Option Expr) : List CEv → Except Err 
 
 inductive ITask where
   | flat (body : List CEv)
+  | ev (e : CEv)
   | apply (ds : List Dir) (body : List CEv)
   | loop (v : Name) (items : List Val) (ds : List Dir) (body : List CEv)
   | binds (bs : List (Name × Expr)) (ds : List Dir) (body : List CEv)
   deriving Repr, Inhabited
 
+def getMacro (st : St) : Val → Except Err Macro
+  | .undef => .error .undefined
+  | .macro i => match st.macros[i]? with
+      | some m => .ok m
+      | none => .error .unmodelled
+  | _ => .error .type
+
+/-- the error of a misplaced `py:when` / `py:otherwise`: the message takes its position from
+    `next(stream)`, which on an empty sub-stream raises StopIteration instead (surfacing as
+    RuntimeError from the enclosing generator) -/
+def posErr (body : List CEv) : Err := if body.isEmpty then .stopiter else .runtime
+
+def St.setMatched (st : St) (c : Choice) (cs : List Choice) (m : Bool) : St :=
+  { st with choice := { c with matched := m } :: cs }
+
+def St.popChoice (st : St) : St := { st with choice := st.choice.tail }
+
+def St.define (st : St) (name : Name) (m : Macro) : St :=
+  { st with macros := st.macros ++ [m], data := st.data.set name (.macro st.macros.length) }
+
 def run : Nat → ITask → St → IRes
   | 0, _, _ => .error .fuel
   | _ + 1, .flat [], st => .ok ([], st)
-  | n + 1, .flat (ev :: rest), st => do
-      let (o1, s1) ← match ev with
-        | .start t a => (.ok ([startEv t a], st) : IRes)
-        | .end_ t => .ok ([endEv t], st)
-        | .text s => .ok ([tx s], st)
-        | .xexpr (.pure e) => do
-            let v ← eval st.look e
-            let out ← renderVal v
-            pure (out, st)
-        | .xexpr (.call f args) => do
-            let fv := st.look f
-            let vs ← evalArgs st.look args
-            match fv with
-            | .undef => .error .undefined
-            | .macro i =>
-                match st.macros[i]? with
-                | none => .error .unmodelled
-                | some m => do
-                    let scope ← bindParams m.params vs
-                    let (o, s) ← run n (.apply m.dirs m.body) (st.push scope)
-                    pure (o, s.pop)
-            | _ => .error .type
-        | .sub ds body => run n (.apply ds body) st
-      let (o2, s2) ← run n (.flat rest) s1
-      pure (o1 ++ o2, s2)
+  | n + 1, .flat (e :: rest), st => seq (run n (.ev e) st) (fun s1 => run n (.flat rest) s1)
+  | _ + 1, .ev (.start t a), st => .ok ([startEv t a], st)
+  | _ + 1, .ev (.end_ t), st => .ok ([endEv t], st)
+  | _ + 1, .ev (.text s), st => .ok ([tx s], st)
+  | _ + 1, .ev (.xexpr (.pure e)), st => do
+      let v ← eval st.look e
+      let out ← renderVal v
+      pure (out, st)
+  | n + 1, .ev (.xexpr (.call f args)), st => do
+      let vs ← evalArgs st.look args
+      let m ← getMacro st (st.look f)
+      let scope ← bindParams m.params vs
+      mapSt St.pop (run n (.apply m.dirs m.body) (st.push scope))
+  | n + 1, .ev (.sub ds body), st => run n (.apply ds body) st
   | n + 1, .apply [] body, st => run n (.flat body) st
-  | n + 1, .apply (d :: ds) body, st =>
-      match d with
-      | .def_ name params =>
-          .ok ([], { st with macros := st.macros ++ [⟨params, ds, body⟩],
-                             data := st.data.set name (.macro st.macros.length) })
-      | .when e =>
-          match st.choice with
-          | [] => .error .runtime
-          | c :: cs =>
-              if c.matched then .ok ([], st) else do
-                let m ← whenMatches st.look c e
-                let st' := { st with choice := { c with matched := m } :: cs }
-                if m then run n (.apply ds body) st' else pure ([], st')
-      | .otherwise =>
-          match st.choice with
-          | [] => .error .runtime
-          | c :: cs =>
-              if c.matched then .ok ([], st)
-              else run n (.apply ds body) { st with choice := { c with matched := true } :: cs }
-      | .for_ v e => do
-          let it ← eval st.look e
-          let items ← iterItems it
-          run n (.loop v items ds body) st
-      | .if_ e => do
-          let v ← eval st.look e
-          if v.truthy then run n (.apply ds body) st else pure ([], st)
-      | .choose e => do
-          let v ← match e with
-            | some e => eval st.look e
-            | none => pure (.atom .none)
-          let (o, s1) ← run n (.apply ds body) { st with choice := ⟨false, e.isSome, v⟩ :: st.choice }
-          pure (o, { s1 with choice := s1.choice.tail })
-      | .with_ bs => do
-          let (o, s1) ← run n (.binds bs ds body) (st.push [])
-          pure (o, s1.pop)
-      | .replace _ => .error .unmodelled      -- never a run-time directive (attach returns None)
-      | .content _ => .error .unmodelled
-      | .attrs e =>
-          match ds with
-          | [] => do
-              let b ← attrsHead st.look e body
-              run n (.flat b) st
-          | [.strip c] => do
-              -- strip pulls the first event (which evaluates py:attrs) before its own condition
-              let b ← attrsHead st.look e body
-              let b' ← stripBody st.look c b
-              run n (.flat b') st
-          | _ => .error .unmodelled
-      | .strip c =>
-          match ds with
-          | [] => do
-              let b' ← stripBody st.look c body
-              run n (.flat b') st
-          | _ => .error .unmodelled
+  | _ + 1, .apply (.def_ name params :: ds) body, st => .ok ([], st.define name ⟨params, ds, body⟩)
+  | n + 1, .apply (.when e :: ds) body, st =>
+      match st.choice with
+      | [] => .error (posErr body)
+      | c :: cs =>
+          if c.matched then .ok ([], st)
+          else if !c.hasTest && e.isNone then .error (posErr body)
+          else do
+            let m ← whenMatches st.look c e
+            if m then run n (.apply ds body) (st.setMatched c cs true) else pure ([], st.setMatched c cs false)
+  | n + 1, .apply (.otherwise :: ds) body, st =>
+      match st.choice with
+      | [] => .error (posErr body)
+      | c :: cs =>
+          if c.matched then .ok ([], st) else run n (.apply ds body) (st.setMatched c cs true)
+  | n + 1, .apply (.for_ v e :: ds) body, st => do
+      let it ← eval st.look e
+      let items ← iterItems it
+      run n (.loop v items ds body) st
+  | n + 1, .apply (.if_ e :: ds) body, st => do
+      let v ← eval st.look e
+      if v.truthy then run n (.apply ds body) st else pure ([], st)
+  | n + 1, .apply (.choose e :: ds) body, st => do
+      let v ← evalOpt st.look e
+      mapSt St.popChoice
+        (run n (.apply ds body) { st with choice := ⟨false, e.isSome, v⟩ :: st.choice })
+  | n + 1, .apply (.with_ bs :: ds) body, st =>
+      mapSt St.pop (run n (.binds bs ds body) (st.push []))
+  | _ + 1, .apply (.replace _ :: _) _, _ => .error .unmodelled   -- never a run-time directive
+  | _ + 1, .apply (.content _ :: _) _, _ => .error .unmodelled   -- (attach returns None)
+  | n + 1, .apply [.attrs e] body, st => do
+      let b ← attrsHead st.look e body
+      run n (.flat b) st
+  | n + 1, .apply [.attrs e, .strip c] body, st => do
+      -- strip pulls the first event (which evaluates py:attrs) before its own condition
+      let b ← attrsHead st.look e body
+      let b' ← stripBody st.look c b
+      run n (.flat b') st
+  | _ + 1, .apply (.attrs _ :: _ :: _) _, _ => .error .unmodelled
+  | n + 1, .apply [.strip c] body, st => do
+      let b' ← stripBody st.look c body
+      run n (.flat b') st
+  | _ + 1, .apply (.strip _ :: _ :: _) _, _ => .error .unmodelled
   | _ + 1, .loop _ [] _ _, st => .ok ([], st)
-  | n + 1, .loop v (item :: items) ds body, st => do
-      let (o1, s1) ← run n (.apply ds body) (st.push [(v, item)])
-      let (o2, s2) ← run n (.loop v items ds body) s1.pop
-      pure (o1 ++ o2, s2)
+  | n + 1, .loop v (item :: items) ds body, st =>
+      seq (run n (.apply ds body) (st.push [(v, item)]))
+          (fun s1 => run n (.loop v items ds body) s1.pop)
   | n + 1, .binds [] ds body, st => run n (.apply ds body) st
   | n + 1, .binds ((x, e) :: bs) ds body, st => do
       let v ← eval st.look e
@@ -240,7 +232,7 @@ def run : Nat → ITask → St → IRes
 def St.init (data : Env) : St := ⟨[], data, [], []⟩
 
 /-- `Template.generate(**data)` of the template compiled from the AST -/
-def implRender (fuel : Nat) (ns : List Node) (data : Env) : Except Err (List Event) := do
+def implRender (fuel : Nat) (ns : List TNode) (data : Env) : Except Err (List Event) := do
   let (o, _) ← run fuel (.flat (compileNodes ns)) (St.init data)
   pure o
 
